@@ -686,6 +686,8 @@ class InProtocolBase(ProtocolMixin):
 
 _uuid_deserialize = {
     None: lambda s: uuid.UUID(s.decode('ascii') if isinstance(s, bytes) else s),
+    str: lambda s: uuid.UUID(s.decode('ascii') if isinstance(s, bytes) else s),
+    'str': lambda s: uuid.UUID(s.decode('ascii') if isinstance(s, bytes) else s),
     'hex': lambda s: uuid.UUID(hex=s),
     'urn': lambda s: uuid.UUID(hex=s),
     'bytes': lambda s: uuid.UUID(bytes=s),
